@@ -100,6 +100,13 @@ class _BoundFI:
         self.fi, self.obj = fi, obj
 
 
+class _AbsKey:
+    """Dictionary key that is an abstract value (hashable wrapper, equal only to itself)."""
+
+    def __init__(self, value):
+        self.value = value
+
+
 class _ModuleDict:
     """module.__dict__ as a read-only mapping name -> entity."""
 
@@ -150,6 +157,7 @@ class Interp:
         self.global_cache = {}
         self.instantiate = True
         self.sorted_ids = set()
+        self.sort_keys = {}
         self.subst = {}  # Sym -> Lin (after unfolding a Run)
         self.excluded = {}  # Lin shape -> set of excluded values of the non-constant part
         self.unfolded = {}  # Run -> replacement atoms
@@ -1081,6 +1089,9 @@ class Interp:
             return ABuiltin("str." + name)
         if isinstance(v, Opaque):
             return Opaque("attr:%s" % name, [v])
+        if v is None or isinstance(v, (int, float, str, bytes, list, dict, tuple, set, bool)):
+            if not hasattr(v, name):
+                raise RaiseEx("AttributeError", node)
         return ABound(v, name)
 
     # ---------------------------------------------------------------- calls
@@ -1224,23 +1235,39 @@ class Interp:
                 recv.reverse(); return None
             if name == "pop":
                 return recv.pop(*[a for a in args if isinstance(a, int)])
+            def _same(x, y):
+                if x is y:
+                    return True
+                if isinstance(x, AObj) or isinstance(y, AObj):
+                    return self.compare(ast.Eq, x, y, node)
+                return self.equal(x, y, node)
             if name == "index":
                 for i, x in enumerate(recv):
-                    if self.equal(x, args[0], node):
+                    if _same(x, args[0]):
                         return i
                 raise RaiseEx("ValueError", node)
             if name == "count":
-                return sum(1 for x in recv if self.equal(x, args[0], node))
+                return sum(1 for x in recv if _same(x, args[0]))
             if name == "remove":
                 for i, x in enumerate(recv):
-                    if self.equal(x, args[0], node):
+                    if _same(x, args[0]):
                         del recv[i]
                         return None
                 raise RaiseEx("ValueError", node)
+            if name == "copy":
+                return list(recv)
+            if name == "clear":
+                del recv[:]
+                return None
             if name == "sort" and not _has_abs(recv):
                 recv.sort(**kwargs) if not kwargs else recv.sort(); self.sorted_ids.add(id(recv)); return None
             if name == "sort":
-                self.events.append(("sort", recv, None, node))
+                if kwargs.get("key") is not None:
+                    keys = [self.call(kwargs["key"], [x], {}, node) for x in recv]
+                    self.events.append(("sort-key", recv, keys, node))
+                    self.sort_keys[id(recv)] = keys
+                else:
+                    self.events.append(("sort", recv, None, node))
                 self.sorted_ids.add(id(recv))
                 return None
         if isinstance(recv, dict):
@@ -1250,10 +1277,33 @@ class Interp:
                 return list(recv.values())
             if name == "items":
                 return [tuple(kv) for kv in recv.items()]
-            if name == "get":
+            if name in ("get", "setdefault", "pop"):
                 k = simplify_str(args[0])
+                if isinstance(k, AbsStr) and k.is_concrete():
+                    k = k.concrete()
                 if not _has_abs(k):
-                    return recv.get(k, args[1] if len(args) > 1 else None)
+                    if name == "get":
+                        return recv.get(k, args[1] if len(args) > 1 else None)
+                    if name == "setdefault":
+                        return recv.setdefault(k, args[1] if len(args) > 1 else None)
+                    if k in recv:
+                        return recv.pop(k)
+                    if len(args) > 1:
+                        return args[1]
+                    raise RaiseEx("KeyError", node)
+                if name == "setdefault":
+                    # abstract key (e.g. a malformed-input class): remember the entry under the abstract value's identity
+                    for kk in list(recv):
+                        if kk is k:
+                            return recv[kk]
+                    recv[_AbsKey(k)] = args[1] if len(args) > 1 else None
+                    return recv[[kk for kk in recv if isinstance(kk, _AbsKey) and kk.value is k][0]]
+            if name == "update" and args and isinstance(args[0], dict):
+                recv.update(args[0]); return None
+            if name == "copy":
+                return dict(recv)
+            if name == "clear":
+                recv.clear(); return None
         if isinstance(recv, (bytes, bytearray)) and not _has_abs(args) and name in (
                 "join", "decode", "hex", "startswith", "endswith", "find", "index", "count", "replace", "split", "strip"):
             try:
@@ -1875,6 +1925,23 @@ class Interp:
         it = _unlin(self.eval(st.iter, frame))
         if isinstance(it, AbsStr) and (it.has_run() or any(_is_rep(a) for a in it.atoms)):
             broke = absloops.for_over_absstr(self, st, it, frame)
+        elif isinstance(it, list):
+            # Python's list iterator: index-based, sees mutations of the list made by the body
+            broke = False
+            i = 0
+            while i < len(it):
+                item = it[i]
+                i += 1
+                if i > 10000:
+                    raise CannotDecide("list iteration does not end")
+                self.assign(st.target, item, frame)
+                try:
+                    self.exec_block(st.body, frame)
+                except BreakEx:
+                    broke = True
+                    break
+                except ContinueEx:
+                    continue
         else:
             items = self.iterate(it, st.iter)
             broke = False
